@@ -1,3 +1,4 @@
+import collections
 import copy
 from typing import List, Tuple, Union, Dict
 
@@ -10,6 +11,8 @@ from autofit.mapper.prior_model.attribute_pair import (
 from .abstract import Prior
 
 NameValue = Tuple[str, Union[Prior, float]]
+
+ModelNameValue = collections.namedtuple("ModelNameValue", ["name", "model"])
 
 
 def _position_key(name: str):
@@ -49,6 +52,20 @@ class TuplePrior(ModelObject):
         return [prior for _, prior in self.prior_tuples]
 
     @property
+    def model_tuples(self):
+        """
+        Members which are neither priors nor constants but are computed from
+        priors (e.g. the sum of two priors).
+        """
+        return [
+            ModelNameValue(name, value)
+            for name, value in self.__dict__.items()
+            if not name.startswith("_")
+            and not isinstance(value, Prior)
+            and hasattr(value, "instance_for_arguments")
+        ]
+
+    @property
     def unique_prior_tuples(self):
         return self.prior_tuples
 
@@ -64,7 +81,10 @@ class TuplePrior(ModelObject):
         return list(
             sorted(
                 filter(
-                    lambda t: isinstance(t[1], float) and t[0] != "id",
+                    lambda t: isinstance(t[1], (float, int))
+                    and not isinstance(t[1], bool)
+                    and t[0] != "id"
+                    and not t[0].startswith("_"),
                     self.__dict__.items(),
                 ),
                 key=lambda tup: _position_key(tup[0]),
@@ -87,13 +107,16 @@ class TuplePrior(ModelObject):
         def convert(tup):
             if hasattr(tup, "prior"):
                 return arguments[tup.prior]
+            if hasattr(tup, "model"):
+                # a member defined by arithmetic on other priors
+                return tup.model.instance_for_arguments(arguments)
             return tup.instance
 
         return tuple(
             map(
                 convert,
                 sorted(
-                    self.prior_tuples + self.instance_tuples,
+                    self.prior_tuples + self.instance_tuples + self.model_tuples,
                     key=lambda tup: _position_key(tup.name),
                 ),
             )
@@ -116,6 +139,10 @@ class TuplePrior(ModelObject):
             setattr(tuple_prior, name, arguments[prior])
         for name, value in self.instance_tuples:
             setattr(tuple_prior, name, value)
+        for name, model in self.model_tuples:
+            setattr(
+                tuple_prior, name, model.gaussian_prior_model_for_arguments(arguments)
+            )
         return tuple_prior
 
     @property
